@@ -1581,6 +1581,9 @@ func delpaths(v, p any, a allocator) any {
 	//   jq -n "[0, 1, 2, 3] | delpaths([[1], [2]])" #=> [0, 3].
 	var empty struct{}
 	var err error
+	if a == nil {
+		a = allocator{} // to delete the values only in the copied containers
+	}
 	u := v
 	for _, q := range paths {
 		path, ok := q.([]any)
@@ -1592,7 +1595,7 @@ func delpaths(v, p any, a allocator) any {
 			return &func1WrapError{"delpaths", v, p, err}
 		}
 	}
-	return deleteEmpty(u)
+	return deleteEmpty(u, a)
 }
 
 func update(v any, path []any, n any, a allocator) (any, error) {
@@ -1780,24 +1783,30 @@ func updateArraySlice(v []any, m map[string]any, path []any, n any, a allocator)
 	}
 }
 
-func deleteEmpty(v any) any {
+func deleteEmpty(v any, a allocator) any {
 	switch v := v.(type) {
 	case struct{}:
 		return nil
 	case map[string]any:
+		if !a.allocated(v) {
+			return v
+		}
 		for k, w := range v {
 			if w == struct{}{} {
 				delete(v, k)
 			} else {
-				v[k] = deleteEmpty(w)
+				v[k] = deleteEmpty(w, a)
 			}
 		}
 		return v
 	case []any:
+		if !a.allocated(v) {
+			return v
+		}
 		var j int
 		for _, w := range v {
 			if w != struct{}{} {
-				v[j] = deleteEmpty(w)
+				v[j] = deleteEmpty(w, a)
 				j++
 			}
 		}
